@@ -108,6 +108,11 @@ type SpecMacro struct {
 	// uninterpreted function (named after the heap versions the body reads)
 	// plus one unfolding of the definition per application.
 	Rec bool
+	// Nat: base and step are non-negative by construction (sums, products and
+	// ite of non-negative literals, len/cap and the recursive occurrence), so
+	// by induction every value of the function is >= 0; applications carry
+	// that fact.
+	Nat bool
 }
 
 type ContractSet struct {
@@ -688,5 +693,31 @@ func checkPrimRec(m *SpecMacro) error {
 	}
 	check(c.Args[1], false)
 	check(c.Args[2], true)
+	if err == nil {
+		m.Nat = specNonNeg(c.Args[1], m.Name) && specNonNeg(c.Args[2], m.Name)
+	}
 	return err
+}
+
+// specNonNeg: the expression is >= 0 whatever its free variables denote,
+// provided applications of rec (the induction hypothesis) are.
+func specNonNeg(e ast.Expr, rec string) bool {
+	switch x := e.(type) {
+	case *ast.ParenExpr:
+		return specNonNeg(x.X, rec)
+	case *ast.BasicLit:
+		return x.Kind == token.INT && !strings.HasPrefix(x.Value, "-")
+	case *ast.BinaryExpr:
+		if x.Op == token.ADD || x.Op == token.MUL {
+			return specNonNeg(x.X, rec) && specNonNeg(x.Y, rec)
+		}
+	case *ast.CallExpr:
+		switch exprString(x.Fun) {
+		case "len", "cap", rec:
+			return true
+		case "ite":
+			return len(x.Args) == 3 && specNonNeg(x.Args[1], rec) && specNonNeg(x.Args[2], rec)
+		}
+	}
+	return false
 }
